@@ -244,16 +244,18 @@ func (c *Cluster) mergeHosts(hosts []*Host) error {
 		existing[host.Key()] = host
 	}
 
-	c.currentHostIndex = -1
+	currentHostIndex := -1
 	for i, host := range hosts {
 		if host.Key() == c.currentEndpoint.Key() {
-			c.currentHostIndex = i
+			currentHostIndex = i
 			break
 		}
 	}
-	if c.currentHostIndex < 0 {
+	if currentHostIndex < 0 {
+		// The index is left alone so that the next reconnect attempt moves on to the next host
 		return fmt.Errorf("host %s not found in system tables", c.currentEndpoint)
 	}
+	c.currentHostIndex = currentHostIndex
 
 	for _, host := range hosts {
 		key := host.Key()
